@@ -1,7 +1,8 @@
 /-
-Reference model of C13: an insertion-ordered map keyed by the lower-cased key that remembers
-the most recently written spelling.  An entry is `(lowerU key, spelling, value)`.
+Reference model of C13: an insertion-ordered map keyed by the normalised (lower-cased) key that
+remembers the most recently written spelling.  An entry is `(norm key, spelling, value)`.
 This file is what a reader has to agree with; it does not mention the two tables of the code.
+`norm` is the key normaliser (`str.lower()`); nothing but `norm (norm k) = norm k` is assumed of it.
 -/
 import PybtexModel.Model.CIMapU
 
@@ -10,99 +11,137 @@ namespace Pybtex.Uni
 abbrev OMap (V : Type) := List (Str × Str × V)
 
 namespace OMap
-variable {V : Type}
+variable {V : Type} (norm : Str → Str)
 
 def set : OMap V → Str → V → OMap V
-  | [], k, v => [(lowerU k, k, v)]
-  | (l, sp, w) :: r, k, v => if l = lowerU k then (l, k, v) :: r else (l, sp, w) :: set r k v
+  | [], k, v => [(norm k, k, v)]
+  | (l, sp, w) :: r, k, v => if l = norm k then (l, k, v) :: r else (l, sp, w) :: set r k v
 
 def get : OMap V → Str → Option V
   | [], _ => none
-  | (l, _, w) :: r, k => if l = lowerU k then some w else get r k
+  | (l, _, w) :: r, k => if l = norm k then some w else get r k
 
-def has (m : OMap V) (k : Str) : Bool := (get m k).isSome
+def has (m : OMap V) (k : Str) : Bool := (get norm m k).isSome
 
 def del : OMap V → Str → OMap V
   | [], _ => []
-  | (l, sp, w) :: r, k => if l = lowerU k then r else (l, sp, w) :: del r k
+  | (l, sp, w) :: r, k => if l = norm k then r else (l, sp, w) :: del r k
 
 def keys (m : OMap V) : List Str := m.map (·.2.1)
 def items (m : OMap V) : List (Str × V) := m.map fun e => (e.2.1, e.2.2)
-def ofPairs (ps : List (Str × V)) : OMap V := ps.foldl (fun m p => set m p.1 p.2) []
-def update (m : OMap V) (ps : List (Str × V)) : OMap V := ps.foldl (fun m p => set m p.1 p.2) m
+def values (m : OMap V) : List V := m.map (·.2.2)
+/-- construction from pairs = writing the pairs one after the other -/
+def ofPairs (ps : List (Str × V)) : OMap V := ps.foldl (fun m p => set norm m p.1 p.2) []
+def update (m : OMap V) (ps : List (Str × V)) : OMap V := ps.foldl (fun m p => set norm m p.1 p.2) m
 /-- case-lowering: spellings become the lower-cased keys; order and values are kept. -/
 def lowered (m : OMap V) : OMap V := m.map fun e => (e.1, e.1, e.2.2)
 
-/-- Well-formedness: lowerU keys are the lower-casing of the spelling and pairwise distinct. -/
-def WF (m : OMap V) : Prop := (∀ e ∈ m, e.1 = lowerU e.2.1) ∧ (m.map (·.1)).Nodup
+/-- Well-formedness: keys are the normal form of the spelling and pairwise distinct. -/
+def WF (m : OMap V) : Prop := (∀ e ∈ m, e.1 = norm e.2.1) ∧ (m.map (·.1)).Nodup
 
+/-- one operation on the reference map (the non-defaulting mappings) -/
 def step (m : OMap V) : Op V → OMap V × Res V
-  | .set k v => (set m k v, .unit)
-  | .get k => (m, match get m k with | some v => .val v | none => .keyError)
-  | .del k => if has m k then (del m k, .unit) else (m, .keyError)
-  | .contains k => (m, .bool (has m k))
+  | .set k v => (set norm m k v, .unit)
+  | .get k => (m, match get norm m k with | some v => .val v | none => .keyError)
+  | .del k => if has norm m k then (del norm m k, .unit) else (m, .keyError)
+  | .contains k => (m, .bool (has norm m k))
   | .len => (m, .nat m.length)
   | .iter => (m, .keys (keys m))
   | .items => (m, .items (items m))
-  | .getD k dflt => (m, .val ((get m k).getD dflt))
+  | .keys => (m, .keys (keys m))
+  | .values => (m, .vals (values m))
+  | .truth => (m, .bool (m.length != 0))
+  | .getD k dflt => (m, .val ((get norm m k).getD dflt))
   | .setDefault k dflt =>
-    match get m k with
+    match get norm m k with
     | some v => (m, .val v)
-    | none => (set m k dflt, .val dflt)
+    | none => (set norm m k dflt, .val dflt)
   | .pop k =>
-    match get m k with
-    | some v => (del m k, .val v)
+    match get norm m k with
+    | some v => (del norm m k, .val v)
     | none => (m, .keyError)
   | .popD k dflt =>
-    match get m k with
-    | some v => (del m k, .val v)
+    match get norm m k with
+    | some v => (del norm m k, .val v)
     | none => (m, .val dflt)
   | .popItem =>
     match m with
     | [] => (m, .keyError)
     | (_, sp, v) :: r => (r, .pair sp v)
-  | .update ps => (update m ps, .unit)
+  | .update ps => (update norm m ps, .unit)
   | .lower => (lowered m, .unit)
   | .clear => ([], .unit)
-  | .getDefault k dflt => (m, .val ((get m k).getD dflt))
+  | .modify k f =>
+    match get norm m k with
+    | some v => (set norm m k (f v), .unit)
+    | none => (m, .keyError)
 
 def run (m : OMap V) : List (Op V) → OMap V × List (Res V)
   | [] => (m, [])
   | op :: ops =>
-    let r := step m op
+    let r := step norm m op
     let rest := run r.1 ops
+    (rest.1, r.2 :: rest.2)
+
+/-- The defaulting variant (default value `fac`): the SAME map, except that the look-up `d[k]` of an
+absent key yields `fac` — and stores nothing.  (`d[k] = f(d[k])` therefore starts from `fac`.) -/
+def stepD (fac : V) (m : OMap V) : Op V → OMap V × Res V
+  | .get k => (m, .val ((get norm m k).getD fac))
+  | .modify k f => (set norm m k (f ((get norm m k).getD fac)), .unit)
+  | op => step norm m op
+
+def runD (fac : V) (m : OMap V) : List (Op V) → OMap V × List (Res V)
+  | [] => (m, [])
+  | op :: ops =>
+    let r := stepD norm fac m op
+    let rest := runD fac r.1 ops
     (rest.1, r.2 :: rest.2)
 
 end OMap
 
-/-- Reference model of the set: list of `(lowerU key, last spelling)`, order irrelevant. -/
+/-- Reference model of the set: list of `(norm key, last spelling)`, order irrelevant. -/
 abbrev OSet := List (Str × Str)
 
 namespace OSet
+variable (norm : Str → Str)
+
 def add : OSet → Str → OSet
-  | [], k => [(lowerU k, k)]
-  | (l, sp) :: r, k => if l = lowerU k then (l, k) :: r else (l, sp) :: add r k
+  | [], k => [(norm k, k)]
+  | (l, sp) :: r, k => if l = norm k then (l, k) :: r else (l, sp) :: add r k
 def discard : OSet → Str → OSet
   | [], _ => []
-  | (l, sp) :: r, k => if l = lowerU k then r else (l, sp) :: discard r k
-def has (s : OSet) (k : Str) : Bool := s.any fun e => e.1 = lowerU k
+  | (l, sp) :: r, k => if l = norm k then r else (l, sp) :: discard r k
+def has (s : OSet) (k : Str) : Bool := s.any fun e => e.1 = norm k
 def canonical : OSet → Str → Option Str
   | [], _ => none
-  | (l, sp) :: r, k => if l = lowerU k then some sp else canonical r k
+  | (l, sp) :: r, k => if l = norm k then some sp else canonical r k
 def lowered (s : OSet) : OSet := s.map fun e => (e.1, e.1)
+/-- the members as the set iterates them: the normalised keys -/
+def members (s : OSet) : List Str := s.map (·.1)
 
 def step (s : OSet) : SOp → OSet × SRes
-  | .add k => (s.add k, .unit)
-  | .discard k => (s.discard k, .unit)
-  | .remove k => if s.has k then (s.discard k, .unit) else (s, .keyError)
-  | .contains k => (s, .bool (s.has k))
-  | .canonical k => (s, match s.canonical k with | some x => .str x | none => .keyError)
-  | .lower => (s.lowered, .unit)
+  | .add k => (add norm s k, .unit)
+  | .discard k => (discard norm s k, .unit)
+  | .remove k => if has norm s k then (discard norm s k, .unit) else (s, .keyError)
+  | .contains k => (s, .bool (has norm s k))
+  | .canonical k => (s, match canonical norm s k with | some x => .str x | none => .keyError)
+  | .lower => (lowered s, .unit)
+  | .len => (s, .nat s.length)
+  | .iter => (s, .strs (members s))
+  | .truth => (s, .bool (s.length != 0))
+  | .pop choice =>
+    -- removes exactly the member it returns; which member is not specified
+    match s with
+    | [] => (s, .keyError)
+    | _ :: _ => if (members s).contains choice then (s.filter fun e => e.1 ≠ choice, .str choice) else (s, .badChoice)
+  | .clear => ([], .unit)
+  | .ior l => (l.foldl (add norm) s, .unit)
+  | .isub l => (l.foldl (discard norm) s, .unit)
 
 def run (s : OSet) : List SOp → OSet × List SRes
   | [] => (s, [])
   | op :: ops =>
-    let r := step s op
+    let r := step norm s op
     let rest := run r.1 ops
     (rest.1, r.2 :: rest.2)
 end OSet
